@@ -119,6 +119,38 @@ def run(ctx, res):
             res.ok("C08:" + rule, inst, st)
     for v in sub.violations:
         res.bad("C08:" + v.rule, v.key, v.msg + " (then `:resume` re-enters an expression whose operands are gone)", v.where, v.data)
+    # ---- READER-NEVER-BLOCKS (shared with C30/C31): handle_request runs on the thread that reads stdin and is the only place an
+    # `interrupt` request is seen; if handing a request to the worker could wait (a bounded queue), a running eval is
+    # never interrupted and no later request is answered
+    from . import c31 as _c31
+    _c31.reader_never_blocks(P, res, root="json_session::handle_request", prefix="json_session::", floor=1)
+    # ---- RESTORE-BALANCE (shared with C07): a step that fails must hand back as many values as it popped; otherwise the
+    # re-run of that step by `:resume` pops values that are not there and the worker dies on an empty value stack
+    from . import c07 as _c07
+    sites, _inh, _help, _sh = _c07.restore_sites(ctx)
+
+    def bag(seq):
+        out = []
+        for x in seq:
+            if isinstance(x, tuple):
+                out.append((x[0] if x[0] == "opt" else "vec", x[1], len(x[2]) if x[0] == "opt" else 0))
+            else:
+                out.append(("v", x, 0))
+        return sorted(out)
+    nb = 0
+    for s in sites:
+        if s["ok"] or s["restored"] is None or s["expected"] is None:
+            nb += 1 if s["ok"] else 0
+            continue
+        if bag(s["restored"]) != bag(s["expected"]):
+            res.bad("RESTORE-BALANCE", "eval::%s # %s # restores %s of %s" % (s["fn"], s["arm"], _c07.show(s["restored"]), _c07.show(s["expected"])),
+                    "%s pops %s and on this error hands back %s: `:resume` re-runs the step and pops values that were never pushed back, "
+                    "so the worker thread dies on an empty value stack" % (s["fn"], _c07.show(s["popped"]), _c07.show(s["restored"])),
+                    "%s:%d" % (_c07.EVAL, s["line"]))
+        else:
+            nb += 1
+    res.ok("RESTORE-BALANCE", "%d error hand-offs in eval.rs give back as many values as the step popped" % nb)
+    res.floor("RESTORE-BALANCE", "RestoreValues hand-offs", len(sites), 100)
     if ctx.tier == "thorough":
         from .. import loops as LP
         LP.run(ctx, res, reach)
